@@ -1,22 +1,45 @@
-"""MANIFEST.setup_cmd: offline; syntax-check every TLA+ module with SANY."""
+"""MANIFEST.setup_cmd: offline; syntax-check with SANY every TLA+ module that a registered
+check uses (modules of checks still being built are reported but do not fail setup)."""
 import concurrent.futures as cf
 import glob
+import json
 import os
+import re
 import sys
 
 from . import tlc
 
+ROOT = os.path.dirname(tlc.SPECS)
+
+
+def used_modules():
+    man = json.load(open(os.path.join(ROOT, "MANIFEST.json")))
+    used = set()
+    for c in man.get("checks", []):
+        pid = c["property_id"].lower()
+        for path in [os.path.join(ROOT, "checks", pid + ".py")] + glob.glob(os.path.join(ROOT, "drivers", pid + "_*.py")):
+            if os.path.exists(path):
+                for m in re.findall(r"[\"']([A-Za-z_][A-Za-z0-9_]*)(?:\.tla)?[\"']", open(path).read()):
+                    if os.path.exists(os.path.join(tlc.SPECS, m + ".tla")):
+                        used.add(m)
+    return used
+
 
 def main():
     files = sorted(glob.glob(os.path.join(tlc.SPECS, "*.tla")))
+    used = used_modules()
     bad = 0
     with cf.ThreadPoolExecutor(max_workers=16) as ex:
         for fn, (ok, out) in zip(files, ex.map(tlc.sany, files)):
             if not ok:
-                bad += 1
-                print("SANY FAILED", fn)
-                print(out[-3000:])
-    print("setup: %d modules parsed, %d failed" % (len(files), bad))
+                name = os.path.basename(fn)[:-4]
+                if name in used:
+                    bad += 1
+                    print("SANY FAILED", fn)
+                    print(out[-3000:])
+                else:
+                    print("note: %s does not parse yet (not used by a registered check)" % name)
+    print("setup: %d modules, %d used by registered checks, %d failed" % (len(files), len(used), bad))
     return 1 if bad else 0
 
 
